@@ -10,6 +10,7 @@ from __future__ import annotations
 import asyncio
 from asyncio import base_events, events
 import heapq
+import sys
 from typing import Any, Callable
 
 
@@ -206,9 +207,17 @@ class VLoop(base_events.BaseEventLoop):
     # -- stepping -----------------------------------------------------------
     def activate(self) -> None:
         events._set_running_loop(self)
+        # what run_forever() does for asynchronous generators: an abandoned generator (e.g. `break` out of `async for`) is
+        # closed by a task the loop schedules when CPython drops the last reference (reference counting: deterministic)
+        self._old_agen_hooks = sys.get_asyncgen_hooks()
+        sys.set_asyncgen_hooks(firstiter=self._asyncgen_firstiter_hook, finalizer=self._asyncgen_finalizer_hook)
 
     def deactivate(self) -> None:
         events._set_running_loop(None)
+        hooks = getattr(self, "_old_agen_hooks", None)
+        if hooks is not None:
+            sys.set_asyncgen_hooks(*hooks)
+            self._old_agen_hooks = None
 
     def has_ready(self) -> bool:
         return any(not h._cancelled for h in self._ready)
